@@ -430,6 +430,9 @@ def work_b(task):
         firsts = [c for c in inits if c[1][1:8] in ([*le2(2), *le2(1), 8, *le2(2)], [*le2(2), *le2(1), 4, *le2(17)], [*le2(1), *le2(1), 8, *le2(2)])]
         tail_alphabet = firsts + [c for c in others if c[0] == 'pal'] + [c for c in others if c[0] == 'upd'][:1] + \
             [c for c in others if c[0] == 'rect'][:1] + [c for c in others if c[0] in ('raw1', 'raw2')]
+        # between two device commands the PROGRAM may change the memory the device reads: not a byte of the stream, a change of the first
+        # palette / the first framebuffer in place (the next command that reads them must see the current bytes)
+        tail_alphabet += [('program-changes-palette', ('poke', A1)), ('program-changes-framebuffer', ('poke', S1))]
         depth = 5 if tier == 'thorough' else 4
         assert len(firsts) == 3 and len(tail_alphabet) >= 8, (len(firsts), len(tail_alphabet))
     idx = 0
@@ -442,13 +445,24 @@ def work_b(task):
             seqs.append((first,) + tail)
     states = set()
     sample = None
+    ww_, off_ = w.bit_length() - 1, w.bit_length()
     for seq in seqs:
-        stream = [b for _, bs in seq for b in bs]
+        stream = []
+        for _, bs in seq:
+            stream += [bs] if isinstance(bs, tuple) else list(bs)
         dev = InMemoryScreen()
-        dev.attach_memory(StubMemory(w, dict(mem)))
-        model = ScreenModel(w, dict(mem))
+        real_mem, model_mem = dict(mem), dict(mem)
+        dev.attach_memory(StubMemory(w, real_mem))
+        model = ScreenModel(w, model_mem)
         stats['streams'] += 1
         for i, b in enumerate(stream):
+            if isinstance(b, tuple):
+                # the program rewrites the first three packed bytes of the region (both memories alike)
+                for k in range(3):
+                    jw = ((b[1] + k * 2 * w) >> ww_) + 1
+                    for m_ in (real_mem, model_mem):
+                        m_[jw] = m_.get(jw, 0) ^ ((0x4D + 0x11 * k) << off_)
+                continue
             e = model.feed(b)
             g = feed_real(dev, b)
             stats['bytes'] += 1
@@ -724,9 +738,16 @@ def replay(args):
         w = c['w']
         mem = stub_memory_content(w, *screen_regions(w))
         dev = InMemoryScreen()
-        dev.attach_memory(StubMemory(w, dict(mem)))
-        model = ScreenModel(w, dict(mem))
+        real_mem, model_mem = dict(mem), dict(mem)
+        dev.attach_memory(StubMemory(w, real_mem))
+        model = ScreenModel(w, model_mem)
         for b in c['stream']:
+            if isinstance(b, (list, tuple)):   # the program changed the memory between two commands
+                for k in range(3):
+                    jw = ((b[1] + k * 2 * w) >> (w.bit_length() - 1)) + 1
+                    for m_ in (real_mem, model_mem):
+                        m_[jw] = m_.get(jw, 0) ^ ((0x4D + 0x11 * k) << w.bit_length())
+                continue
             e, g = model.feed(b), feed_real(dev, b)
             if g != e or (e == 'ok' and real_view(dev) != model.view()):
                 print('byte', b, 'expected', e, model.view(), 'observed', g, real_view(dev))
